@@ -1303,6 +1303,9 @@ typedef struct rp_s {
   uint8_t *vbuf;
   uint64_t checks, reopens, flushes, compactions, edits_replayed, max_files;
   int max_levels;
+  int longkeys;              /* case class "long MANIFEST": 1.5-3 KB keys, so a handful of edits cross 32 KiB block boundaries */
+  uint64_t reuse_reopens_longkeys, max_manifest_bytes;
+  uint64_t reuse_number; size_t reuse_size; int reuse_counted;   /* MANIFEST kept by the last reopen, its size then */
 } rp_t;
 
 static void msnap_free(msnap_t *s) {
@@ -1434,6 +1437,12 @@ static int load_manifest(rp_t *R, const char *why, const uint64_t *ctr, msnap_t 
   if (mf == NULL) { rv(R, "manifest-replay-error", why, "CURRENT names %s which cannot be read: %s", path, strerror(errno)); return 0; }
   s->manifest_number = num;
   s->manifest_bytes = mflen;
+  if (mflen > R->max_manifest_bytes) R->max_manifest_bytes = mflen;
+  if (R->reuse_number != 0 && s->manifest_number == R->reuse_number && !R->reuse_counted && mflen / 32768 > R->reuse_size / 32768) {
+    R->reuse_counted = 1;               /* an appended-to MANIFEST has crossed a block boundary and is replayed below */
+    R->reuse_reopens_longkeys++;
+    vh_count("c17_appended_manifests_crossing_block_boundary_replayed", 1);
+  }
   if (rc_manifest_replay(mf, mflen, &s->m) != 0) {
     rv(R, "manifest-replay-error", why, "reference replay of %s (%zu bytes) fails after %zu edits: %s", path, mflen, s->m.nedits, s->m.err);
     rc_manifest_free(&s->m);
@@ -1628,7 +1637,7 @@ static int rp_reopen(rp_t *R, int with_flush) {
   msnap_free(&closed);
   c = R->h.cfg;
   cfg_mutate_reopen(&c, &R->r);
-  c.reuse_logs = (int)vr_uniform(&R->r, 2);
+  c.reuse_logs = R->longkeys ? (vr_uniform(&R->r, 4) != 0) : (int)vr_uniform(&R->r, 2);
   dbh_set_cfg(&R->h, &c);
   rc = dbh_open(&R->h, 0);
   if (rc != LDB_OK) {
@@ -1642,6 +1651,8 @@ static int rp_reopen(rp_t *R, int with_flush) {
   if (rp_check(R, with_flush ? "after reopen (flushed close)" : "after reopen", &after) && ok) {
     act1 = R->h.log.compacting + R->h.log.moved + R->h.log.level0_started;
     vh_count(after.manifest_number == before.manifest_number ? "c17_reopen_manifest_reused" : "c17_reopen_manifest_fresh", 1);
+    if (after.manifest_number == before.manifest_number) { R->reuse_number = after.manifest_number; R->reuse_size = after.manifest_bytes; R->reuse_counted = 0; }
+    else R->reuse_number = 0;
     /* counters never run backwards across a restart */
     if (after.m.next_file < before.m.next_file || after.m.last_sequence < before.m.last_sequence || after.m.log_number < before.m.log_number ||
         after.ctr[2] < before.ctr[2] || after.ctr[3] != before.ctr[3])
@@ -1684,9 +1695,25 @@ static void run_replay_case(int caseidx, const char *base) {
   if (caseidx % 4 != 3) cfg.write_buffer_size = 64 << 10;
   if (caseidx % 2) cfg.max_file_size = 1 << 20;
   m_init(&R->m, cfg.cmp_kind);
+  R->longkeys = (caseidx % 5 == 4);
+  if (R->longkeys) {
+    /* every version edit names smallest/largest keys: with 1.5-3 KB keys a flush edit is 3-6 KB and the MANIFEST
+     * crosses a 32 KiB block boundary every few edits - also after a reopen that reuses (appends to) the MANIFEST */
+    static uint8_t lk[3200];
+    size_t plen = 1500 + vr_uniform(&R->r, 1500), j;
+    int i, nk = 40 + (int)vr_uniform(&R->r, 120);
+    for (j = 0; j < plen; j++) lk[j] = (uint8_t)('a' + vr_uniform(&R->r, 26));
+    for (i = 0; i < nk; i++) {
+      size_t n = plen + (size_t)sprintf((char *)lk + plen, "%04u", vr_uniform(&R->r, 9000));
+      m_add_key(&R->m, lk, n);
+    }
+    m_finalize(&R->m);
+    cfg.write_buffer_size = 64 << 10;
+  } else
   universe_generate(&R->m, &R->r, 40 + (int)vr_uniform(&R->r, 300));
   R->vbuf = malloc(40000);
   R->steps = 100 + (int)vr_uniform(&R->r, 301);
+  if (R->longkeys) R->steps += 150;
   snprintf(dir, sizeof(dir), "%s/c17-replay-%d", base, caseidx);
   vh_rm_rf(dir);
   dbh_init(&R->h, dir, &cfg);
@@ -1728,6 +1755,10 @@ static void run_replay_case(int caseidx, const char *base) {
   dbh_close(&R->h);
 
   vh_count("c17_replay_cases", 1);
+  if (R->longkeys) {
+    vh_count("c17_longkey_replay_cases", 1);
+    if (R->max_manifest_bytes > 32768) vh_count("c17_longkey_cases_manifest_over_one_block", 1);
+  }
   vh_count("c17_replay_steps", (uint64_t)R->steps);
   vh_count("c17_replay_checks", R->checks);
   vh_count("c17_replay_flushes", R->flushes);
